@@ -2,6 +2,7 @@ import Driver.Basic
 import Driver.StorageOps
 import Driver.LocationOps
 import Driver.StageOps
+import Driver.DamageOps
 open Lean Ts.Drv
 
 namespace Ts.Drv
@@ -10,7 +11,8 @@ namespace Ts.Drv
 def handlers : List Handler := [
   StorageOps.handle,
   LocationOps.handle,
-  StageOps.handle
+  StageOps.handle,
+  DamageOps.handle
 ]
 
 def dispatch (line : String) : Json :=
